@@ -37,6 +37,9 @@ impl KnownFindings {
             if !s("detail_contains").is_empty() && !v.detail.contains(s("detail_contains")) {
                 continue;
             }
+            if !s("detail_contains2").is_empty() && !v.detail.contains(s("detail_contains2")) {
+                continue;
+            }
             if !s("scenario").is_empty() && s("scenario") != scenario {
                 continue;
             }
